@@ -37,7 +37,7 @@ Inductive sm_op :=
 | SmRestart
 | SmAddShare (party threshold : Z) | SmGetShares
 | SmAddNotarized
-| SmSetTimeout (c : Z)
+| SmSetTimeout (c : Z) (cap : Z)   (* cap: the configured timeout cap (read only by the repaired variant) *)
 | SmIncTimeout (prrs : Z) (perm : list Z) (self : Z) (cap : Z)
     (* perm: the miner order rankTimeoutCounters computes from prrs (recorded from the real run,
        used only when no order is stored yet); self: this node's id; cap: the configured
@@ -96,14 +96,24 @@ Fixpoint sm_scan_votes (perm : list Z) (self : Z) (votes : list (Z * Z)) (count 
 (* checkCap: if timeoutCap > 0 && tc.count > timeoutCap { tc.count = timeoutCap } *)
 Definition sm_check_cap (cap c : Z) : Z := if Z.ltb 0 cap && Z.ltb cap c then cap else c.
 
+(* Which repairs are applied.  All [false] = the code as written.
+     fx_restart:  Restart unlocks the mutex on the rejected path;
+     fx_clamp:    SetTimeoutCount clamps its argument to the configured cap (when positive);
+     fx_saturate: IncrementTimeoutCount does not increment past MaxInt64. *)
+Record sm_fix := { fx_restart : bool; fx_clamp : bool; fx_saturate : bool }.
+Definition sm_as_written : sm_fix := {| fx_restart := false; fx_clamp := false; fx_saturate := false |}.
+Definition sm_repaired : sm_fix := {| fx_restart := true; fx_clamp := true; fx_saturate := true |}.
+
 (* IncrementTimeoutCount (votes map is never nil for rounds made by the Provider) *)
-Definition sm_inc_timeout (s : sm_state) (prrs : Z) (perm : list Z) (self cap : Z) : sm_state :=
+Definition sm_inc_timeout (fx : sm_fix) (s : sm_state) (prrs : Z) (perm : list Z) (self cap : Z) : sm_state :=
   if Z.eqb prrs 0 then s
   else
     let perm' := match sm_tperm s with [] => perm | p => p end in
     let from := sm_tcount s in
     let c1 := sm_scan_votes perm' self (sm_votes s) from in
-    let c2 := if Z.eqb c1 from then sm_wrap64 (c1 + 1) else c1 in
+    let c2 := if Z.eqb c1 from
+              then (if fx_saturate fx && Z.eqb c1 (2^63 - 1) then c1 else sm_wrap64 (c1 + 1))
+              else c1 in
     sm_with_timeout s (sm_check_cap cap c2) [] perm'.
 
 (* operations that take r.mutex (Lock or RLock) *)
@@ -115,9 +125,7 @@ Definition sm_needs_lock (o : sm_op) : bool :=
   | _ => false
   end.
 
-(* [fixed = false]: Restart as written (the rejected path returns without Unlock);
-   [fixed = true]: with the Unlock added. *)
-Definition sm_step (fixed : bool) (s : sm_state) (o : sm_op) : sm_state * sm_res :=
+Definition sm_step (fx : sm_fix) (s : sm_state) (o : sm_op) : sm_state * sm_res :=
   if sm_needs_lock o && sm_held s then (s, Blocked)
   else
   match o with
@@ -126,7 +134,7 @@ Definition sm_step (fixed : bool) (s : sm_state) (o : sm_op) : sm_state * sm_res
   | SmGetPhase => (s, Ret (VInt (sm_phase s)))
   | SmRestart =>
       if Z.leb sm_Share (sm_phase s)
-      then (sm_with_held s (negb fixed), Ret VRestartRejected)
+      then (sm_with_held s (negb (fx_restart fx)), Ret VRestartRejected)
       else (sm_with_phase (sm_with_shares s []) 0, Ret VUnit)
   | SmAddShare party threshold =>
       if Z.leb threshold (Z.of_nat (length (sm_shares s))) then (s, Ret (VBool false))
@@ -134,10 +142,11 @@ Definition sm_step (fixed : bool) (s : sm_state) (o : sm_op) : sm_state * sm_res
       else (sm_with_shares (sm_set_phase s 0) (sm_shares s ++ [party]), Ret (VBool true))
   | SmGetShares => (s, Ret (VSet (sm_shares s)))
   | SmAddNotarized => (sm_set_phase s sm_Share, Ret VUnit)
-  | SmSetTimeout c =>
-      if Z.leb c (sm_tcount s) then (s, Ret (VBool false))
-      else (sm_with_timeout s c (sm_votes s) (sm_tperm s), Ret (VBool true))
-  | SmIncTimeout prrs perm self cap => (sm_inc_timeout s prrs perm self cap, Ret VUnit)
+  | SmSetTimeout c cap =>
+      let c' := if fx_clamp fx then sm_check_cap cap c else c in
+      if Z.leb c' (sm_tcount s) then (s, Ret (VBool false))
+      else (sm_with_timeout s c' (sm_votes s) (sm_tperm s), Ret (VBool true))
+  | SmIncTimeout prrs perm self cap => (sm_inc_timeout fx s prrs perm self cap, Ret VUnit)
   | SmVote num id => (sm_with_timeout s (sm_tcount s) ((id, num) :: sm_votes s) (sm_tperm s), Ret VUnit)
   | SmGetTimeout => (s, Ret (VInt (sm_tcount s)))
   | SmSetFinalizing =>
@@ -152,14 +161,11 @@ Definition sm_step (fixed : bool) (s : sm_state) (o : sm_op) : sm_state * sm_res
   end.
 
 (* run a history: list of states after each op, and the results *)
-Fixpoint sm_run (fixed : bool) (s : sm_state) (ops : list sm_op) : list (sm_state * sm_res) :=
+Fixpoint sm_run (fx : sm_fix) (s : sm_state) (ops : list sm_op) : list (sm_state * sm_res) :=
   match ops with
   | [] => []
-  | o :: tl => let '(s1, r) := sm_step fixed s o in (s1, r) :: sm_run fixed s1 tl
+  | o :: tl => let '(s1, r) := sm_step fx s o in (s1, r) :: sm_run fx s1 tl
   end.
-
-Definition sm_final (fixed : bool) (s : sm_state) (ops : list sm_op) : sm_state :=
-  last (map fst (sm_run fixed s ops)) s.
 
 (* ------------------------------------------------------------------------------------------ *)
 (* setPhase under concurrency.  Memory = the phase word; a thread running setPhase(arg) does
